@@ -75,6 +75,8 @@ type Server struct {
 	cond   *sync.Cond
 	inbox  []*msg
 	closed bool
+	// responses that arrived while another id was awaited (SendRequest / AwaitRaw)
+	stash map[int]*msg
 	// Diags is the folded client view: last publishDiagnostics per file
 	// (path relative to Root; absolute if outside).
 	Diags map[string][]Diag
@@ -309,6 +311,10 @@ func (s *Server) wait(id int) (*msg, error) {
 	s.mu.Lock()
 	defer s.mu.Unlock()
 	for {
+		if m, ok := s.stash[id]; ok {
+			delete(s.stash, id)
+			return m, nil
+		}
 		for len(s.inbox) > 0 {
 			m := s.inbox[0]
 			s.inbox = s.inbox[1:]
@@ -316,6 +322,9 @@ func (s *Server) wait(id int) (*msg, error) {
 				got, _ := strconv.Atoi(string(*m.ID))
 				if got == id {
 					return m, nil
+				}
+				if s.stash != nil {
+					s.stash[got] = m
 				}
 				continue
 			}
@@ -363,6 +372,30 @@ func (s *Server) Call(method string, params interface{}, result interface{}) err
 		return json.Unmarshal(m.Result, result)
 	}
 	return nil
+}
+
+// SendRequest sends a request without waiting for its answer (several requests in flight); AwaitRaw collects it.
+func (s *Server) SendRequest(method string, params interface{}) (int, error) {
+	s.mu.Lock()
+	if s.stash == nil {
+		s.stash = map[int]*msg{}
+	}
+	s.mu.Unlock()
+	s.nextID++
+	id := s.nextID
+	return id, s.send(map[string]interface{}{"jsonrpc": "2.0", "id": id, "method": method, "params": params})
+}
+
+// AwaitRaw waits for the answer of a request sent with SendRequest.
+func (s *Server) AwaitRaw(id int) (json.RawMessage, error) {
+	m, err := s.wait(id)
+	if err != nil {
+		return nil, err
+	}
+	if m.Error != nil {
+		return nil, &RPCError{m.Error.Code, m.Error.Message}
+	}
+	return m.Result, nil
 }
 
 // CallRaw returns the raw result JSON.
